@@ -4,7 +4,7 @@
 From Coq Require Import ZArith List Bool.
 From CiwV Require Import Sx Prelude.
 From CiwV.Engine Require Import State2 Engine2 Codec2.
-From CiwV.Inv Require Conserve2 Sched2 Preempt2 Renege2 Route2 Samples2 Blocking2 Servers2 Clock2 HorizonCount2 Journey2 Horizon2 Clock2r Inversion2 Journey2s Slot2 Journey2r DateSum2 Knot2 Clock2p.
+From CiwV.Inv Require Conserve2 Sched2 Preempt2 Renege2 Route2 Samples2 Blocking2 Servers2 Clock2 HorizonCount2 Journey2 Horizon2 Clock2r Inversion2 Journey2s Slot2 Journey2r DateSum2 Knot2 Clock2p TrackerInc2.
 Import ListNotations.
 Open Scope Z_scope.
 
@@ -127,6 +127,28 @@ Definition run_knot2 (inp : sx) : sx :=
     match dec_cfg c, dec_sim s (L [L []; L []; L []; L []; L []; L []]), getZs k with
     | Some cf, Some st, Some K => L [bit (Knot2.knot_scope cf K); bit (Knot2.knot2_b cf st K); bit (Knot2.noscope_b cf K st)]
     | _, _, _ => A (-1)
+    end
+  | _ => A (-1)
+  end.
+
+(* C17 on stage 2 (dispatch_model 45): the tracker calls the STAGE-2 ENGINE MODEL says one event makes (TrackerInc2.calls_event_step, the ghost
+   call list the theorems of TrackerInc2.v fold the incremental updates over), for comparison with the calls the real engine makes to its
+   tracker in that event; plus the invariant Idx and the hypotheses of the NaiveBlocking theorem on the real snapshot:
+   L [cfg; state; draws] -> L [idx2_b; scope_int && noint2_b && nextunbl_b; L calls] *)
+Definition enc_call2 (c : TrackerInc2.call) : sx :=
+  match c with
+  | TrackerInc2.Acc j k => L [A 0; A j; A k]
+  | TrackerInc2.Blk j d i pc => L [A 1; A j; A d; A i; A pc]
+  | TrackerInc2.Rel j d i pc b => L [A 2; A j; A d; A i; A pc; A (if b then 1 else 0)]
+  | TrackerInc2.Chg j pc k => L [A 3; A j; A pc; A k]
+  end.
+Definition run_calls2 (inp : sx) : sx :=
+  match inp with
+  | L [c; s; d] =>
+    match dec_cfg c, dec_sim s d with
+    | Some cf, Some st => L [bit (TrackerInc2.idx2_b st); bit (TrackerInc2.scope_int cf && TrackerInc2.noint2_b st && TrackerInc2.nextunbl_b st);
+                             L (map enc_call2 (TrackerInc2.calls_event_step cf st))]
+    | _, _ => A (-1)
     end
   | _ => A (-1)
   end.
